@@ -550,6 +550,12 @@ def oracle_case(case, obs, small=True):
                 if msg:
                     return "step %d `%s`: second run of the same search object, after `%s` -> `%s`: %s" % (si, st, op, second[:120], msg)
                 continue
+            for mark, why in ((" A-REPLACED-CLOSURE-WAS-CALLED", "a closure that a later filter() / for_each() call replaced was still called: the closure in force is not the only one consulted"),
+                              (" PATH.EDGES-OR-INDEXING-DIFFERS-FROM-TO_VEC_EDGES", "the public field Path::edges (or indexing) is not the edge sequence the accessors report"),
+                              (" ITER_NODES-DIFFERS-FROM-TO_VEC_NODES", "Path::iter_nodes() does not yield the nodes of the path in order"),
+                              (" SEARCH-AND-SEARCH_PATH-DISAGREE-ON-ONE-OBJECT", "search() and search_path() of one priority-first search object disagree about whether the target is reachable")):
+                if mark in text:
+                    return "step %d `%s`: %s" % (si, st, why)
             if " REUSED-OBJECT-ANSWERS " in text:
                 # the same configured search object, run a second time, answered differently: decide both answers
                 first, second = text.split(" REUSED-OBJECT-ANSWERS ", 1)
